@@ -273,28 +273,45 @@ def discharge(axioms: List[Any], obs: List[Obligation], timeout_s: int = 30,
     obs = [ob for ob in obs_all if ob.status != "discharged"]
     # cover obligations only get the first short round: "not refutable quickly" is what they need
     rnd(obs, min(timeout_s, max(3, timeout_s / 6)), False, "z3")
-    for tmo, mb, tag in ((timeout_s / 3, "noeq", "z3/no-solve-eqs"), (timeout_s / 3, True, "z3+mbqi"), (timeout_s, False, "z3")):
-        sel = [ob for ob in open_() if not ob.expect_fail and not ob.low_budget]
-        if sel and (retry_mbqi or not mb):
-            rnd(sel, tmo, mb, tag)
-    # rescue: the sliced queries again with the FULL budget - on a loaded machine the short first rounds can time out
-    # on queries that only the slice makes easy (verdicts must not depend on how busy the cores are)
-    for mode, tag in ((False, "z3/cone-of-influence-slice(full budget)"), ("noeq", "z3/cone-of-influence-slice/no-solve-eqs(full budget)")):
-        jobs = [(ob.oid, coi[ob.oid], int(timeout_s * 1000), mode) for ob in obs
-                if ob.status in ("unknown", "error") and not ob.expect_fail and not ob.low_budget and ob.oid in coi]
-        for oid, res, dt, model, reason in p.imap_unordered(_worker, jobs, chunksize=1):
-            ob = byid[oid]
-            ob.time_s += dt
-            if res == "unsat":
-                ob.status, ob.backend = "discharged", tag
-    pending = [ob for ob in obs if ob.status in ("unknown", "error") and not ob.expect_fail and not ob.low_budget]
-    if pending and use_cvc5 and os.path.exists("/usr/bin/cvc5"):
-        jobs = [(ob.oid, texts[ob.oid], timeout_s) for ob in pending]
-        for oid, r, dt in p.imap_unordered(_cvc5_worker, jobs, chunksize=1):
-            ob = byid[oid]
-            ob.time_s += dt
-            if r == "unsat":
-                ob.status, ob.backend = "discharged", "cvc5"
+    # The expensive rounds run in batches of open obligations.  Once a batch ends with a CONFIRMED failure (an obligation
+    # that went through every round and stayed open) the run's verdict is settled; the rest is marked "not attempted"
+    # (reported as undecided, never as a violation) instead of spending ~2 minutes of solver time on each.
+    def late_rounds(batch):
+        for tmo, mb, tag in ((timeout_s / 3, "noeq", "z3/no-solve-eqs"), (timeout_s / 3, True, "z3+mbqi"), (timeout_s, False, "z3")):
+            sel = [ob for ob in batch if ob.status in ("pending", "unknown", "error")]
+            if sel and (retry_mbqi or not mb):
+                rnd(sel, tmo, mb, tag)
+        # rescue: the sliced queries again with the FULL budget - on a loaded machine the short first rounds can time out
+        # on queries that only the slice makes easy (verdicts must not depend on how busy the cores are)
+        for mode, tag in ((False, "z3/cone-of-influence-slice(full budget)"), ("noeq", "z3/cone-of-influence-slice/no-solve-eqs(full budget)")):
+            jobs = [(ob.oid, coi[ob.oid], int(timeout_s * 1000), mode) for ob in batch if ob.status in ("unknown", "error") and ob.oid in coi]
+            for oid, res, dt, model, reason in p.imap_unordered(_worker, jobs, chunksize=1):
+                ob = byid[oid]
+                ob.time_s += dt
+                if res == "unsat":
+                    ob.status, ob.backend = "discharged", tag
+        pend = [ob for ob in batch if ob.status in ("unknown", "error")]
+        if pend and use_cvc5 and os.path.exists("/usr/bin/cvc5"):
+            jobs = [(ob.oid, texts[ob.oid], timeout_s) for ob in pend]
+            for oid, r, dt in p.imap_unordered(_cvc5_worker, jobs, chunksize=1):
+                ob = byid[oid]
+                ob.time_s += dt
+                if r == "unsat":
+                    ob.status, ob.backend = "discharged", "cvc5"
+
+    todo = [ob for ob in open_() if not ob.expect_fail and not ob.low_budget]
+    BATCH = 2 * nproc
+    confirmed = False
+    while todo:
+        batch, todo = todo[:BATCH], todo[BATCH:]
+        if confirmed:
+            for ob in batch:
+                ob.status, ob.backend = "unknown", "not-attempted"
+                ob.info = (ob.info + " not attempted: another obligation of this run is already confirmed open").strip()
+            continue
+        late_rounds(batch)
+        if any(ob.status != "discharged" for ob in batch):
+            confirmed = True
     for ob in obs_all:
         if ob.status != "discharged":
             ob.smt2 = texts[ob.oid]
